@@ -308,7 +308,6 @@ func init() {
 			var pr c02Params
 			json.Unmarshal(b.Params, &pr)
 			seqs := c02Sequences(alphabet, pr.MaxLen)
-			w.Count("sequences_in_space", 0)
 			for pi := 0; pi < pr.Programs; pi++ {
 				p, steers, sw := c02Program(w.Rng)
 				text := p.Render()
